@@ -25,9 +25,9 @@ func priorPoint(k int) *edwards25519.Point {
 	case 0:
 		return new(edwards25519.Point)
 	case 1:
-		return alpha.MakePoint(ref.Base(), 0)
+		return observe(alpha.MakePoint(ref.Base(), 0))
 	default:
-		return alpha.MakePoint(ref.Add(ref.Torsion()[1], ref.Mul(alpha.GenericScalar, ref.Base())), 6)
+		return observe(alpha.MakePoint(ref.Add(ref.Torsion()[1], ref.Mul(alpha.GenericScalar, ref.Base())), 6))
 	}
 }
 
